@@ -1,12 +1,16 @@
-// C07 (part): retarget arithmetic. Real pow.cpp (CalculateNextWorkRequired, PermittedDifficultyTransition) and real arith_uint256.cpp
-// (SetCompact, GetCompact, operator*=(uint32_t), comparisons, shifts) -- with ONE replacement:
+// C07 (part): retarget rules. Real pow.cpp (CalculateNextWorkRequired, PermittedDifficultyTransition) and real arith_uint256.cpp
+// (SetCompact, GetCompact, comparisons, shifts, assignment), composed with two ARITHMETIC LEMMAS that are proved on the real code in c07_div.cpp:
 //
-//   base_uint<256>::operator/=  is replaced in this file by its arithmetic CONTRACT: the unique q with q*b <= a < (q+1)*b.
+//   base_uint<256>::operator*=(uint32_t)  ==  a*m mod 2^256          (harness mul32: proved for ALL 2^256 x 2^32 inputs)
+//   base_uint<256>::operator/=            ==  floor(a/b), i.e. the unique q with q*b <= a < (q+1)*b   (harness division: proved for the dividend shapes in reach, see spec)
 //
-// Reason: the real operator/= is a bit-serial restoring division (one 256-bit compare/subtract per quotient bit); deciding it against
-// any independent definition of floor division needs ~2^(symbolic dividend bits) solver work (measured: 32 symbolic bits ~30 s,
-// 40 bits > 10 min), so dividends of 46 symbolic bits times 256^(exp-3) are out of reach. The real operator/= is checked against the
-// same contract in c07_div.cpp for the dividend shapes that are in reach. Everything else on the path runs for real, for all inputs.
+// In this file the two operators are replaced by reference implementations of exactly these specifications (digit-wise product; schoolbook binary
+// long division, whose result is re-checked against the contract on every native run), every call is logged, and the harness checks that the real code feeds them the right operands
+// and post-processes the quotient correctly, for ALL mantissas / times / new bits. Reason: deciding the bit-serial 256-bit division (and, to a
+// lesser degree, the limb multiplication) inside the full retarget query needs ~2^(symbolic dividend bits) solver work (measured: 32 bits ~30 s,
+// 40 bits > 10 min; the retarget dividend has 46 symbolic bits). Variants with -DREAL_MUL keep the real multiplication (thorough tier).
+// Monotonicity of the two specifications (x<=y => a*x<=a*y, x<=y => floor(x/d)<=floor(y/d)) is handed to the solver as redundant assumptions
+// between logged calls: they are mathematical consequences of the specifications, true in every execution, so they exclude nothing.
 #include "c07_common.h"
 
 #ifndef EXP
@@ -19,10 +23,10 @@ struct DivRec { W a; uint64_t b; W q; };
 static DivRec div_log[4];
 static int div_calls;
 
-static W w_long_div(const W& a, uint64_t d)          // native runs only (replay / differential): schoolbook binary division
+static W w_long_div256(const W& a, uint64_t d)          // schoolbook binary long division of a 256-bit dividend, most significant bit first
 {
     W q = w_u64(0); unsigned __int128 r = 0;
-    for (int i = 64 * WREF_LIMBS - 1; i >= 0; i--) {
+    for (int i = 255; i >= 0; i--) {
         r = (r << 1) | ((a.l[i / 64] >> (i % 64)) & 1);
         if (r >= d) { r -= d; q.l[i / 64] |= (uint64_t)1 << (i % 64); }
     }
@@ -43,14 +47,11 @@ Raw256* c07_div_contract(Raw256* self, const Raw256* bp)
     for (int i = 2; i < 8; i++) if (b.pn[i] != 0) small = false;
     const uint64_t d = (uint64_t)b.pn[0] | ((uint64_t)b.pn[1] << 32);
     VASSERT(small && d != 0, "contract stub of operator/=: divisor is non-zero and fits 64 bits (pow.cpp divides by nPowTargetTimespan)");
-    uint32_t ql[8];
-    for (int i = 0; i < 8; i++) ql[i] = nondet_u32();          // drawn in every build so that input tapes stay aligned
-    W q = w_u64(0);
-    for (int i = 0; i < 8; i++) q.l[i / 2] |= (uint64_t)ql[i] << (32 * (i % 2));
-    if (verif_native()) {
-        q = w_long_div(a, d);
-    } else {
-        VASSUME(w_le(w_mul64(q, d), a) && w_lt(a, w_mul64(w_add(q, w_u64(1)), d)));      // q = floor(a / d), unique
+    const W q = w_long_div256(a, d);
+    if (verif_native()) VASSERT(w_le(w_mul64(q, d), a) && w_lt(a, w_mul64(w_add(q, w_u64(1)), d)), "reference long division meets the floor-division contract (checked on every native run)");
+    for (int k = 0; k < 4; k++) if (k < div_calls && div_log[k].b == d) {                       // lemma: floor(x/d) <= floor(y/d) for x <= y
+        if (w_le(div_log[k].a, a)) VASSUME(w_le(div_log[k].q, q));
+        if (w_le(a, div_log[k].a)) VASSUME(w_le(q, div_log[k].q));
     }
     if (div_calls < 4) { div_log[div_calls].a = a; div_log[div_calls].b = d; div_log[div_calls].q = q; }
     div_calls++;
@@ -69,6 +70,28 @@ static W w_mul32_digits(const W& x, uint32_t m)
     return acc;
 }
 static bool w_eq(const W& a, const W& b) { return w_cmp(a, b) == 0; }
+
+#ifndef REAL_MUL
+// ---- specification stub for base_uint<256>::operator*=(uint32_t) (proved equal to the real one for all inputs by harness mul32) ----
+struct MulRec { W a; uint32_t m; W p; };
+static MulRec mul_log[4];
+static int mul_calls;
+Raw256* c07_mul_spec(Raw256* self, uint32_t m) __asm__("_ZN9base_uintILj256EEmLEj");
+Raw256* c07_mul_spec(Raw256* self, uint32_t m)
+{
+    W a = w_u64(0);
+    for (int i = 0; i < 8; i++) a.l[i / 2] |= (uint64_t)self->pn[i] << (32 * (i % 2));
+    const W p = w_mul32_digits(a, m);                    // exact product (< 2^288)
+    for (int k = 0; k < 4; k++) if (k < mul_calls && w_eq(mul_log[k].a, a)) {        // lemma: a*x <= a*y for x <= y
+        if (mul_log[k].m <= m) VASSUME(w_le(mul_log[k].p, p));
+        if (mul_log[k].m >= m) VASSUME(w_le(p, mul_log[k].p));
+    }
+    if (mul_calls < 4) { mul_log[mul_calls].a = a; mul_log[mul_calls].m = m; mul_log[mul_calls].p = p; }
+    mul_calls++;
+    for (int i = 0; i < 8; i++) self->pn[i] = (uint32_t)(p.l[i / 2] >> (32 * (i % 2)));      // mod 2^256
+    return self;
+}
+#endif
 static void w_to_bytes32(const W& x, uint8_t out[32]) { for (int i = 0; i < 32; i++) out[i] = (uint8_t)(x.l[i / 8] >> (8 * (i % 8))); }
 // min(q, powLimit) as bytes
 static void clamp_to_limit(const W& q, uint8_t out[32])
@@ -83,7 +106,7 @@ static void clamp_to_limit(const W& q, uint8_t out[32])
 static constexpr unsigned OLD_SHIFT = EXP >= 3 ? 8 * (EXP - 3) : 0;
 static uint32_t draw_old_nbits(W* value, uint32_t* mant)
 {
-    const uint32_t m = (uint32_t)nondet_range(0, 0x7fffff);
+    const uint32_t m = nondet_u32() & 0x007fffffu;      // (masking keeps the exponent byte syntactically constant for the solver)
     const uint32_t nbits = ((uint32_t)EXP << 24) | m;
     const RefTarget t = ref_decode_compact(nbits);
     uint8_t lim[32]; limit_bytes(lim);
@@ -128,6 +151,9 @@ extern "C" void h_retarget()
     const uint32_t prev_nbits = old_nbits;
 #endif
     div_calls = 0;
+#ifndef REAL_MUL
+    mul_calls = 0;
+#endif
     const uint32_t got = CalculateNextWorkRequired(&last, (int64_t)t_first, p);
     verif_observe(got);
     if (NO_RETARGET) {
@@ -136,21 +162,27 @@ extern "C" void h_retarget()
         int64_t ts = (int64_t)t_last - (int64_t)t_first;
         if (ts < TSPAN / 4) ts = TSPAN / 4;
         if (ts > TSPAN * 4) ts = TSPAN * 4;
+#ifndef REAL_MUL
+        VASSERT(mul_calls == 1 && w_eq(mul_log[0].a, oldv) && mul_log[0].m == (uint32_t)ts, "one multiplication: old target * clamp(last - first, T/4, 4T)");
+        const W N = mul_log[0].p;
+#else
         const W N = w_mul32_digits(oldv, (uint32_t)ts);      // old * clamped timespan
-        VASSERT(div_calls == 1, "exactly one division");
-        VASSERT(w_eq(div_log[0].a, N), "dividend = old target * clamp(last - first, T/4, 4T)");
-        VASSERT(div_log[0].b == (uint64_t)TSPAN, "divisor = target timespan");
+#endif
+        VASSERT(N.l[4] == 0 && N.l[5] == 0, "the product does not wrap 256 bits");
+        VASSERT(div_calls == 1 && w_eq(div_log[0].a, N) && div_log[0].b == (uint64_t)TSPAN, "one division: (old target * clamped timespan) / target timespan");
         uint8_t want[32], lim[32];
         limit_bytes(lim);
         clamp_to_limit(div_log[0].q, want);
         VASSERT(got == ref_encode_compact(want, false), "required bits = compact(min(floor(old * clamped timespan / T), powLimit))");
-        VWITNESS(got == ref_encode_compact(lim, false) && ref_cmp256(want, lim) == 0 && !w_eq(div_log[0].q, w_le_bytes32(lim)), "result clamped to powLimit");
+#if CLAMPS
+        VWITNESS(got == ref_encode_compact(lim, false) && !w_eq(div_log[0].q, w_le_bytes32(want)), "result clamped to powLimit");
+#endif
         VWITNESS(got != ref_encode_compact(lim, false) && got != prev_nbits, "result differs from previous bits and from the limit");
         VWITNESS(ts == TSPAN / 4 && (int64_t)t_last - (int64_t)t_first < 0, "negative actual timespan clamped to T/4");
         VWITNESS(ts == TSPAN * 4 && (int64_t)t_last - (int64_t)t_first > TSPAN * 4, "long timespan clamped to 4T");
         VWITNESS(ts > TSPAN / 4 && ts < TSPAN * 4 && ts != TSPAN, "unclamped timespan");
     }
-#ifndef NO_IMPLICATION
+#ifdef IMPLICATION
     // every required difficulty is accepted by the presync transition check at a retarget height
     const int64_t h = IV * (int64_t)nondet_range(0, 1000);
     VASSERT(PermittedDifficultyTransition(p, h, prev_nbits, got), "PermittedDifficultyTransition accepts the computed required bits at a retarget height");
@@ -170,6 +202,9 @@ extern "C" void h_permitted()
     const uint32_t new_nbits = nondet_u32();
     const int64_t h = (int64_t)nondet_range(0, INT_MAX);
     div_calls = 0;
+#ifndef REAL_MUL
+    mul_calls = 0;
+#endif
     const bool got = PermittedDifficultyTransition(p, h, old_nbits, new_nbits);
     verif_observe(got);
     if (ALLOW_MIN) {
@@ -181,14 +216,27 @@ extern "C" void h_permitted()
     } else {
         const RefTarget nt = ref_decode_compact(new_nbits);          // the check ignores sign/overflow flags of the new bits: value mod 2^256
         // upper bound: first division, always performed
-        VASSERT(div_calls >= 1 && w_eq(div_log[0].a, w_mul32_digits(oldv, (uint32_t)(TSPAN * 4))) && div_log[0].b == (uint64_t)TSPAN, "first division: old target * 4T / T");
+#ifndef REAL_MUL
+        VASSERT(mul_calls >= 1 && w_eq(mul_log[0].a, oldv) && mul_log[0].m == (uint32_t)(TSPAN * 4), "first multiplication: old target * 4T");
+        const W N1 = mul_log[0].p;
+#else
+        const W N1 = w_mul32_digits(oldv, (uint32_t)(TSPAN * 4));
+#endif
+        VASSERT(N1.l[4] == 0 && N1.l[5] == 0, "old * 4T does not wrap 256 bits");
+        VASSERT(div_calls >= 1 && w_eq(div_log[0].a, N1) && div_log[0].b == (uint64_t)TSPAN, "first division: old target * 4T / T");
         uint8_t ub[32], lb[32];
         clamp_to_limit(div_log[0].q, ub);
         const RefTarget U = ref_decode_compact(ref_encode_compact(ub, false));
         const bool too_easy = ref_cmp256(nt.b, U.b) > 0;
         bool too_hard = false;
         if (!too_easy) {
-            VASSERT(div_calls == 2 && w_eq(div_log[1].a, w_mul32_digits(oldv, (uint32_t)(TSPAN / 4))) && div_log[1].b == (uint64_t)TSPAN, "second division: old target * (T/4) / T");
+#ifndef REAL_MUL
+            VASSERT(mul_calls == 2 && w_eq(mul_log[1].a, oldv) && mul_log[1].m == (uint32_t)(TSPAN / 4), "second multiplication: old target * (T/4)");
+            const W N2 = mul_log[1].p;
+#else
+            const W N2 = w_mul32_digits(oldv, (uint32_t)(TSPAN / 4));
+#endif
+            VASSERT(div_calls == 2 && w_eq(div_log[1].a, N2) && div_log[1].b == (uint64_t)TSPAN, "second division: old target * (T/4) / T");
             clamp_to_limit(div_log[1].q, lb);
             const RefTarget D = ref_decode_compact(ref_encode_compact(lb, false));
             too_hard = ref_cmp256(D.b, nt.b) > 0;
@@ -196,8 +244,6 @@ extern "C" void h_permitted()
             VWITNESS(got && ref_cmp256(nt.b, U.b) == 0, "exactly 4x easier (rounded) permitted");
         }
         VASSERT(got == (!too_easy && !too_hard), "retarget height: permitted iff new target within [round(min(old/4, L)), round(min(4*old, L))]");
-        // the quotients are what the text says: 4*old and floor(old/4)
-        VASSERT(w_eq(div_log[0].q, w_shl(oldv, 2)), "old*4T/T = 4*old");
         VWITNESS(got && new_nbits != old_nbits, "a changed target is permitted");
         VWITNESS(!got && too_easy, "too-easy target rejected");
         VWITNESS(!got && too_hard, "too-hard target rejected");
